@@ -1,6 +1,7 @@
 from typing import Any
 from abc import abstractmethod, ABCMeta
 import asyncio
+import concurrent.futures
 import logging
 import threading
 
@@ -101,7 +102,12 @@ class BaseRunner(metaclass=ABCMeta):
             return
         # the loop exists independently of all runners, we can use it to shut down
         closed = asyncio.run_coroutine_threadsafe(self.aclose(), self.asyncio_loop)
-        closed.result()
+        try:
+            closed.result()
+        except concurrent.futures.CancelledError:
+            # The loop is already shutting down by itself, due to a failure or another
+            # stop, and cancelled our request. The runner is closed as part of that.
+            self._stopped.wait()
 
 
 class OrphanedReturn(Exception):
